@@ -89,10 +89,52 @@ class Universe:
             for p, b in c.bodies.items():
                 self.body.setdefault(p, b)
         self.folder = F.Folder(lambda p: self.body.get(p))
+        self._discr = {}
+        for c in order:
+            for a in c.adts:
+                for v in a.get("variants", []):
+                    if v.get("discr") is not None:
+                        self._discr.setdefault((a["path"], v["name"]), int(v["discr"]))
+        self.folder.discr = lambda path, variant: self._discr.get((path, variant))
         self.trait_items = {}
         for c in order:
             for t in c.traits:
                 self.trait_items.setdefault(t["path"], t)
+
+    # ---- item lookup independent of the module an impl block lives in -----------
+    def resolve_item(self, path):
+        """rustc names an impl item `<Self as Trait>::f` / `Type::<..>::f` only while the impl block sits in the
+        module of its self type; elsewhere it is `module::<impl Trait for Self>::f`.  Rules name items the first
+        way; this finds the body through the impl table if the block was moved."""
+        if path in self.body:
+            return path
+        import re
+        head = lambda x: re.sub(r"<.*$", "", x).strip()
+        m = re.match(r"^<(.+) as ([^<>]+)(<.*>)?>::(\w+)$", path)
+        cands = []
+        if m:
+            sh, tr, fn = head(m.group(1)), m.group(2), m.group(4)
+            for c in self.crates:
+                for imp in c.impls:
+                    if imp.get("trait") == tr and head(ty_key(imp["self_ty"])) == sh:
+                        it = self.impl_item(imp, fn)
+                        if it is not None and it["path"] in self.body:
+                            cands.append(it["path"])
+        else:
+            m = re.match(r"^([\w:]+?)(::<.*>)?::(\w+)$", path)
+            if m:
+                sh, fn = m.group(1), m.group(3)
+                for c in self.crates:
+                    for imp in c.impls:
+                        if imp.get("trait") is None and head(ty_key(imp["self_ty"])) == sh:
+                            it = self.impl_item(imp, fn)
+                            if it is not None and it["path"] in self.body:
+                                cands.append(it["path"])
+        cands = sorted(set(cands))
+        return cands[0] if len(cands) == 1 else path
+
+    def get_body(self, path):
+        return self.body.get(self.resolve_item(path))
 
     # ---- impl queries -------------------------------------------------
     def impls_of(self, crate, trait):
@@ -111,7 +153,7 @@ class Universe:
         return self.body.get(it["path"])
 
     # ---- tables -------------------------------------------------------
-    def table(self, body, variants, rule, what):
+    def table(self, body, variants, rule, what, enum_path=None):
         """A2: {variant: folded value} from `match self {V => const,...}` or a
         constant body."""
         e = peel(body["value"])
@@ -151,10 +193,22 @@ class Universe:
             return res
         try:
             val = self.folder.fold(e)
+            return {v: val for v in variants}
         except F.Unfoldable as u:
-            raise ModelError(rule, "%s: body is neither a match on self nor a constant (%s)" % (what, u.what),
-                             u.sp or body["span"])
-        return {v: val for v in variants}
+            first = u
+        # any other constant expression of `self` (e.g. a table indexed by the discriminant): fold it per variant
+        if enum_path is None:
+            raise ModelError(rule, "%s: body is neither a match on self nor a constant (%s)" % (what, first.what),
+                             first.sp or body["span"])
+        for v in variants:
+            self.folder.env = {"self": ("variant", enum_path, v)}
+            try:
+                res[v] = self.folder.fold(e)
+            except F.Unfoldable as u:
+                raise ModelError(rule, "%s: not a constant for variant %s (%s)" % (what, v, u.what), u.sp or body["span"])
+            finally:
+                self.folder.env = {}
+        return res
 
     # ---- quantity types ----------------------------------------------
     def qtypes(self, crate):
@@ -232,12 +286,12 @@ class Universe:
             b = self.item_body(q.impl_unit, fn)
             if b is None:
                 raise ModelError(rule, "no body for <%s as Unit>::%s" % (q.unit_path, fn), q.impl_unit["span"])
-            q.tables[fn] = self.table(b, q.variants, rule, "<%s as Unit>::%s" % (q.unit_path, fn))
+            q.tables[fn] = self.table(b, q.variants, rule, "<%s as Unit>::%s" % (q.unit_path, fn), enum_path=q.unit_path)
         if q.impl_lsu is not None:
             b = self.item_body(q.impl_lsu, "scale")
             if b is None:
                 raise ModelError(rule, "no body for <%s as LinearScaledUnit>::scale" % q.unit_path, q.impl_lsu["span"])
-            q.tables["scale"] = self.table(b, q.variants, rule, "<%s as LinearScaledUnit>::scale" % q.unit_path)
+            q.tables["scale"] = self.table(b, q.variants, rule, "<%s as LinearScaledUnit>::scale" % q.unit_path, enum_path=q.unit_path)
             b = self.item_body(q.impl_lsu, "REF_UNIT")
             if b is None:
                 raise ModelError(rule, "no LinearScaledUnit::REF_UNIT for " + q.unit_path, q.impl_lsu["span"])
